@@ -30,6 +30,8 @@ inductive Tok
   | ret | cont                     -- return / continue
   | wakeup                         -- uv__async_send(loop)
   | writeEfd | readEfd             -- write()/read() on the eventfd (or pipe)
+  | doLoop | whileCond             -- `do` / `while (`
+  | ifEintr | ifEagain             -- errno == EINTR / errno == EAGAIN tests
   | cbNullCheck                    -- if (h->async_cb == NULL)
   | callback                       -- h->async_cb(h)
   | queueMove | queuePop           -- uv__queue_move(&loop->async_handles,&queue) / head+remove+insert_tail
@@ -82,12 +84,13 @@ structure State where
   hs : Nat → HS
   snd : List Sender
   efd : Nat := 0           -- eventfd counter
+  capm1 : Nat := 2^64 - 3  -- a write of 1 succeeds iff efd ≤ capm1 (Linux: counter max 2^64-2), else EAGAIN
   lpc : LPc := .idle
   queue : List Nat := []   -- the local `queue` of uv__async_io (handles still to scan)
   handles : List Nat := [] -- loop->async_handles
 
-def init (nh ns : Nat) : State :=
-  { nh := nh, hs := fun _ => {}, snd := List.replicate ns {}, handles := List.range nh }
+def init (nh ns : Nat) (capm1 : Nat := 2^64 - 3) : State :=
+  { nh := nh, hs := fun _ => {}, snd := List.replicate ns {}, handles := List.range nh, capm1 := capm1 }
 
 def upd (f : Nat → HS) (i : Nat) (v : HS) : Nat → HS := fun j => if j = i then v else f j
 
@@ -97,6 +100,8 @@ inductive Act
   | loop                -- the loop thread performs its next step
   | close (h : Nat)     -- the loop thread calls uv_close(h) (between polls or inside an async callback)
   | closeCbs            -- the loop thread runs the pending close callbacks (uv__run_closing_handles)
+  | eintr (w : Option Nat)  -- environment: the eventfd write of sender t (`some t`) / the loop's eventfd read (`none`)
+                            -- is interrupted (-1/EINTR); async.c retries (243-245, 186-187): no state change
   deriving DecidableEq, Repr
 
 /-- top of `while (!uv__queue_empty(&queue))` (async.c:193-198) -/
@@ -126,8 +131,8 @@ def sndStep (s : State) (t : Nat) : Option State :=
         some (setSnd (setH s x.h { hv with pending := 1, x01 := hv.x01 + 1 }) t { x with pc := .write })
       else
         some (setSnd (setH s x.h { hv with pending := 1 }) t { x with pc := .dec })
-    | .write =>   -- 243-248: write(eventfd, 1)
-      some (setSnd { s with efd := s.efd + 1 } t { x with pc := .dec })
+    | .write =>   -- 243-252: write(eventfd, 1); EAGAIN (counter saturated, hence non-zero) is treated as success
+      some (setSnd { s with efd := if s.efd ≤ s.capm1 then s.efd + 1 else s.efd } t { x with pc := .dec })
     | .dec =>     -- 112
       some (setSnd (setH s x.h { hv with busy := hv.busy - 1 }) t { x with pc := .idle, sent := true })
 
@@ -173,6 +178,11 @@ def step? (s : State) : Act → Option State
       if h < s.nh ∧ (s.hs h).closing = false then
         some { setH s h { s.hs h with closing := true } with lpc := .closeStore h r }
       else none
+  | .eintr none => if s.lpc = .drain then some s else none
+  | .eintr (some t) =>
+    match s.snd[t]? with
+    | some x => if x.pc = .write then some s else none
+    | none => none
   | .closeCbs =>
     if s.lpc = .idle then
       some { s with hs := fun h => if (s.hs h).unlinked then { s.hs h with freed := true } else s.hs h }
@@ -182,7 +192,7 @@ def step (s : State) (a : Act) : State := (step? s a).getD s
 def run (s : State) (acts : List Act) : State := acts.foldl step s
 
 /-- every state the system can be in: any number of handles and senders, any interleaving -/
-def Reachable (s : State) : Prop := ∃ nh ns acts, s = run (init nh ns) acts
+def Reachable (s : State) : Prop := ∃ nh ns cap acts, s = run (init nh ns cap) acts
 
 /-! ## the instruction order the model assumes, in source tokens (compared with Generated.AsyncSeq) -/
 def SPc.toks : SPc → List Tok
@@ -203,8 +213,8 @@ def senderProgram : List Tok := soloSender.flatMap SPc.toks
 
 def LPc.toks : LPc → List Tok
   | .idle => []
-  | .drain => [.readEfd, .cont, .cont, .queueMove]   -- read loop: `continue` on a full buffer and on EINTR
-  | .scan _ => [.queuePop, .xchg .pending 0, .ifEq0, .cont, .cbNullCheck, .cont]
+  | .drain => [.readEfd, .cont, .ifEagain, .ifEintr, .cont, .queueMove]   -- read loop: `continue` on a full buffer and on EINTR, leave on EAGAIN
+  | .scan _ => [.whileCond, .queuePop, .xchg .pending 0, .ifEq0, .cont, .cbNullCheck, .cont]
   | .inCb _ => [.callback]
   | .closeStore _ _ => [.store .pending 1]
   | .closeSpin _ _ => [.load .busy, .ifEq0, .ret]
@@ -223,7 +233,7 @@ def soloClose : List LPc :=
 def spinProgram : List Tok := soloClose.flatMap LPc.toks
 def closeProgram : List Tok := [.spin, .unlink, .handleStop]
 /-- uv__async_send: write (retried on EINTR); return when written; return on EAGAIN; else abort -/
-def wakeupProgram : List Tok := [.writeEfd, .ret, .ret]
+def wakeupProgram : List Tok := [.doLoop, .writeEfd, .whileCond, .ifEintr, .ret, .ifEagain, .ret]
 
 /-! ## enabledness (what the scheduler calls runnable) -/
 def enabled (s : State) (a : Act) : Bool := (step? s a).isSome
